@@ -171,6 +171,18 @@ Fixpoint set_handler (hs : list (cond * list stmt * option kont)) (i : nat) (v :
   | h :: r, S j => h :: set_handler r j v
   end.
 
+(* InterruptBlock.step: the continuation to resume — the suspended one, or a fresh call of the block *)
+Definition selected_kont (body : list stmt) (bk : option kont) (hs : list (cond * list stmt * option kont))
+                         (sel : option nat) : kont :=
+  match sel with
+  | None => match bk with Some x => x | None => [FSeq body] end
+  | Some i => match nth_error hs i with
+              | Some (_, hb, Some x) => x
+              | Some (_, hb, None) => [FSeq hb]
+              | None => []
+              end
+  end.
+
 (* the compiler's ordering: conditions/handlers are passed to runTryInterrupt reversed *)
 Definition compile_handlers (hs : list (cond * list stmt)) : list (cond * list stmt * option kont) :=
   map (fun h => (fst h, snd h, @None kont)) (rev hs).
@@ -273,15 +285,7 @@ Definition run_body (m : mode) (ib : bool) (o : owner) (subs : list sstate) (k :
   | FTry fresh o' body bk hs :: k' =>
       if negb fresh && negb (all_true w t (inv_of P o')) then (OViolation false o', [], subs) else
       let sel := pick_handler w t hs in
-      let bkont :=
-        match sel with
-        | None => match bk with Some x => x | None => [FSeq body] end
-        | Some i => match nth_error hs i with
-                    | Some (_, hb, Some x) => x
-                    | Some (_, hb, None) => [FSeq hb]
-                    | None => []
-                    end
-        end in
+      let bkont := selected_kont body bk hs sel in
       let '(out, e, subs1) := rec m true o' subs bkont in
       (* statement over: every other block is abandoned; in a compose block the sub-scenarios
          still running under the statement are stopped (handler of do ... for/until) *)
